@@ -103,3 +103,39 @@ package dtls
 //@ loop rangeindex: bounds: idx >= 0 && idx <= len(handshakeFragments)
 //@ ensures one-number-per-emitted-record: result1 == nil && !(old(XV13(S12(c).Common.LocalVersion)) && old(pkt.ShouldEncrypt)) ==> ncalls("Conn.nextLocalSequenceNumber") == len(result0)
 //@ end
+
+// DTLS 1.3 writer of protected handshake records (flights, retransmissions, NewSessionTicket, KeyUpdate): every record
+// is sealed with a number freshly and *successfully* allocated from the counter of the packet's epoch; when the
+// 48-bit space of the epoch is exhausted (RFC 9147 4.2.1 / RFC 6347 4.1: sequence numbers must not wrap) nothing is
+// sealed - in particular no record is sealed with the placeholder number 0 of a failed allocation, which would
+// reuse the (key, nonce) pair of the epoch's first record.
+// (The numbering loop is proved over the State12 representation of the common block, because the allocator's contract
+// is stated over it; dtlsstate.CommonState makes the code path identical for State13.)
+//@ define NLSN_OK() (called("Conn.nextLocalSequenceNumber") && isNil(retErr("Conn.nextLocalSequenceNumber", 1)))
+//@ func Conn.processProtectedHandshakePacketTracked
+//@ watch Conn.nextLocalSequenceNumber Conn.sealRecordContent
+//@ requires state12: has12(c)
+//@ requires args: pkt != nil && pkt.Record != nil && dtlsHandshake != nil && !isNil(dtlsHandshake.Message)
+//@ requires mtu: c.maximumTransmissionUnit > 0 && c.maximumTransmissionUnit <= 1<<30
+//@ ensures sealed-only-with-allocated-number: always("Conn.sealRecordContent", "called(\"Conn.nextLocalSequenceNumber\") && isNil(retErr(\"Conn.nextLocalSequenceNumber\", 1)) && argU64(\"Conn.sealRecordContent\", 2) == retU64(\"Conn.nextLocalSequenceNumber\", 0)")
+//@ ensures sealed-in-packets-epoch: always("Conn.sealRecordContent", "argAs(\"Conn.sealRecordContent\", 1, uint16(0)) == argAs(\"Conn.nextLocalSequenceNumber\", 1, uint16(0))") && always("Conn.nextLocalSequenceNumber", "argAs(\"Conn.nextLocalSequenceNumber\", 1, uint16(0)) == old(pkt.Record.Header.Epoch)")
+//@ ensures overflow-nothing-more-emitted: called("Conn.nextLocalSequenceNumber") && !isNil(retErr("Conn.nextLocalSequenceNumber", 1)) ==> result1 != nil && len(result0) == 0
+//@ ensures one-number-per-record: result1 == nil ==> ncalls("Conn.nextLocalSequenceNumber") == len(result0) && ncalls("Conn.sealRecordContent") == len(result0)
+//@ loop rangeindex: state-kept: has12(c) && pkt.Record != nil && pkt.Record == old(pkt.Record) && epoch == old(pkt.Record.Header.Epoch)
+//@ loop rangeindex: bounds: idx >= 0 && idx <= len(handshakeFragments)
+//@ loop rangeindex: allocations-succeeded: called("Conn.nextLocalSequenceNumber") ==> isNil(retErr("Conn.nextLocalSequenceNumber", 1))
+//@ loop rangeindex: sealed-only-with-allocated-number: always("Conn.sealRecordContent", "called(\"Conn.nextLocalSequenceNumber\") && isNil(retErr(\"Conn.nextLocalSequenceNumber\", 1)) && argU64(\"Conn.sealRecordContent\", 2) == retU64(\"Conn.nextLocalSequenceNumber\", 0)")
+//@ loop rangeindex: sealed-in-packets-epoch: always("Conn.sealRecordContent", "argAs(\"Conn.sealRecordContent\", 1, uint16(0)) == argAs(\"Conn.nextLocalSequenceNumber\", 1, uint16(0))") && always("Conn.nextLocalSequenceNumber", "argAs(\"Conn.nextLocalSequenceNumber\", 1, uint16(0)) == old(pkt.Record.Header.Epoch)")
+//@ loop rangeindex: one-number-per-record: ncalls("Conn.nextLocalSequenceNumber") == len(rawPackets) && ncalls("Conn.sealRecordContent") == len(rawPackets)
+//@ end
+
+// processHandshakePacket (DTLS 1.2), exhaustion of an epoch's 48-bit space (RFC 6347 4.1: "must either abandon the
+// association or rehandshake prior to allowing the sequence number to wrap"): after a failed allocation nothing is
+// emitted, and a record is only encrypted under a successfully allocated number (never the placeholder 0 of a failure).
+//@ func Conn.processHandshakePacket
+//@ watch Conn.nextLocalSequenceNumber CipherSuite.Encrypt
+//@ loop rangeindex: c09-allocations-succeeded: called("Conn.nextLocalSequenceNumber") ==> isNil(retErr("Conn.nextLocalSequenceNumber", 1))
+//@ loop rangeindex: c09-encrypt-after-successful-allocation: always("CipherSuite.Encrypt", "called(\"Conn.nextLocalSequenceNumber\") && isNil(retErr(\"Conn.nextLocalSequenceNumber\", 1))")
+//@ ensures c09-overflow-nothing-emitted: !(old(XV13(S12(c).Common.LocalVersion)) && old(pkt.ShouldEncrypt)) && called("Conn.nextLocalSequenceNumber") && !isNil(retErr("Conn.nextLocalSequenceNumber", 1)) ==> result1 != nil && len(result0) == 0
+//@ ensures c09-encrypt-after-successful-allocation: always("CipherSuite.Encrypt", "called(\"Conn.nextLocalSequenceNumber\") && isNil(retErr(\"Conn.nextLocalSequenceNumber\", 1))")
+//@ end
